@@ -34,9 +34,13 @@ func newFineCase(seed uint64, memq int64) *caseRun {
 		clients: map[int]*shClient{}, topics: map[int]bool{}, chans: map[[2]int]bool{},
 		tpaused: map[int]bool{}, cpaused: map[[2]int]bool{}, tags: map[string]int{},
 		hadClient: map[[2]int]bool{}, hadChan: map[int]bool{}}
+	lastFine = cr
 	cr.startDaemon()
 	return cr
 }
+
+// the forced scenario being run (they run one at a time), for the hang watchdog
+var lastFine *caseRun
 
 func (cr *caseRun) finish(name string, seed uint64, hidden []int, ignore []int, extraTags ...string) lib.Case {
 	cr.drain()
